@@ -15,7 +15,8 @@ pub const FLOORS: &[&str] = &[
     "stop:fuel", "why:unknown_trap", "why:stack_off", "why:input_eof", "out:puts", "out:putsp",
     "out:out", "out:putn", "out:reg", "in:getc", "in:in", "orig:lt3000", "orig:3000", "orig:mid",
     "orig:ge8000", "path:try_from", "path:from_raw", "feature:loop", "feature:self_modify",
-    "feature:recursion", "feature:nested_call", "ending:FallOff", "nonascii_input",
+    "feature:recursion", "feature:nested_call", "ending:FallOff", "nonascii_input", "feature:empty_image",
+    "raw:empty_image",
 ];
 
 pub const FUEL: u64 = 5000;
@@ -308,7 +309,14 @@ fn structured_case(seed: u64, i: u64) -> CaseOut {
         breaks: rng.chance(1, 5),
         ..Default::default()
     };
-    let built = gen_structured(&mut rng, &o);
+    let mut built = gen_structured(&mut rng, &o);
+    if i % 97 == 5 {
+        // a source without any statement: the image is just the implicit HALT
+        built.program = Program { items: match o.origin { Some(v) => vec![Item::Orig(v), Item::End], None => vec![Item::End] } };
+        built.input.clear();
+        built.features.clear();
+        built.features.push("empty_image");
+    }
     let img = match encode(&built.program) {
         Verdict::Accept(img) => img,
         other => {
@@ -370,6 +378,9 @@ fn raw_case(seed: u64, i: u64) -> CaseOut {
         }
     };
     out.class("path:from_raw");
+    if raw.len() == 1 {
+        out.class("raw:empty_image");
+    }
     out.class(crate::c01::origin_class(Some(raw[0])));
     if !load_checks(&mut out, &env, &raw, stack, i, "from_raw") {
         return out;
